@@ -9,6 +9,8 @@ copy into the mutated copy.  Everything is replayable from the case alone.
           "edif" (compose to EDIF, parse back)
   mutate: [mop, ...] applied to the copy;   cls: name of the mutation class
 
+        further mops: ["reorder", kind, parent path, permutation] (siblings / pins of a wire through the
+        public reorder setters), ["lower", port path, index]
 paths:  ["N"] netlist, ["T"] top instance, ["L",i] library, ["D",i,j] definition,
         ["P",i,j,k] port, ["C",i,j,k] cable, ["W",i,j,k,w] wire, ["U",i,j,k] child instance
 pins:   ["I",i,j,k,bit] inner pin of port k;  ["O",i,j,k,[i2,j2,k2],bit] pin of child k for port
@@ -138,6 +140,17 @@ def apply_mop(n, m):
                 del e.name
         else:
             e.name = m[2]
+    elif v == 'reorder':
+        # public reorder setters (they accept permutations of the current members only)
+        kind, parent, perm = m[1], resolve(n, m[2]), m[3]
+        attr = {'library': 'libraries', 'definition': 'definitions', 'port': 'ports', 'cable': 'cables',
+                'child': 'children', 'pin': 'pins'}[kind]
+        cur = list(getattr(parent, attr))
+        if sorted(perm) != list(range(len(cur))):
+            raise ValueError(m)
+        setattr(parent, attr, [cur[x] for x in perm])
+    elif v == 'lower':
+        resolve(n, m[1]).lower_index = m[2]
     elif v == 'oid':
         e = resolve(n, m[1])
         if m[2] is None:
@@ -639,6 +652,61 @@ def m_rename(rng, n):
     return [['rename', _pick(rng, c), rng.choice(['zz_other', None, 'SDN_Assignment_0_1'])]]
 
 
+# ---------------------------------------------------------------- the same structure, listed differently
+def _perm(rng, k):
+    p = list(range(k))
+    for _ in range(6):
+        rng.shuffle(p)
+        if p != list(range(k)):
+            break
+    return p
+
+
+def m_perm(rng, n):
+    """sibling lists of the copy in another order (ports / cables / children of definitions,
+    definitions of libraries, libraries): structurally the same netlist.  Inner lists first, so
+    that every positional path is valid when its mop runs."""
+    mops = []
+    for i, l in enumerate(n.libraries):
+        for j, d in enumerate(l.definitions):
+            for kind, lst in (('port', d.ports), ('cable', d.cables), ('child', d.children)):
+                if len(lst) >= 2 and rng.random() < 0.7:
+                    mops.append(['reorder', kind, ['D', i, j], _perm(rng, len(lst))])
+        if len(l.definitions) >= 2 and rng.random() < 0.7:
+            mops.append(['reorder', 'definition', ['L', i], _perm(rng, len(l.definitions))])
+    if len(n.libraries) >= 2 and rng.random() < 0.7:
+        mops.append(['reorder', 'library', ['N'], _perm(rng, len(n.libraries))])
+    if not mops:
+        raise Inapplicable('nothing to reorder')
+    return mops
+
+
+def m_pin_order(rng, n):
+    """the pins of one or more wires listed in another order: the same connectivity"""
+    c = [(i, j, k, w, wire) for i, j, d in _defs(n) for k, cb in enumerate(d.cables)
+         for w, wire in enumerate(cb.wires) if len(wire.pins) >= 2]
+    if not c:
+        raise Inapplicable('no wire with two pins')
+    mops = []
+    for i, j, k, w, wire in rng.sample(c, k=min(len(c), rng.randint(1, 3))):
+        mops.append(['reorder', 'pin', ['W', i, j, k, w], _perm(rng, len(wire.pins))])
+    return mops
+
+
+def m_lower_index(rng, n):
+    c = [(i, j, k, p) for i, j, d in _defs(n) for k, p in enumerate(d.ports)]
+    i, j, k, p = _pick(rng, c)
+    return [['lower', ['P', i, j, k], p.lower_index + rng.randint(1, 3)]]
+
+
+# classes outside the rotation of single differences (kept apart so that the stream of generated
+# single-difference cases does not depend on them)
+EXTRA_CLASSES = {
+    'perm': (m_perm, 'perm'),                 # equivalent: must be accepted
+    'pin_order': (m_pin_order, 'pin_order'),  # equivalent as sets of pins per wire
+    'lower_index': (m_lower_index, 'lower_index'),  # not listed by the property, never read
+}
+
 # class -> (generator, class of the same pair read in the other direction)
 CLASSES = {
     'port_dir': (m_port_dir, 'port_dir'),
@@ -675,6 +743,24 @@ CLASSES = {
 PROPERTY_CLASSES = [c for c in CLASSES if c not in ('top_drop', 'oid', 'rename')]
 
 
+def lookup_class(cls):
+    return CLASSES.get(cls) or EXTRA_CLASSES.get(cls)
+
+
+def rev_class(cls):
+    """label of the same pair read in the other direction; 'x&y' = two differences at once"""
+    out = []
+    for part in cls.split('&'):
+        base, _, suf = part.partition('+')
+        e = lookup_class(base)
+        out.append((e[1] if e else base + '~rev') + ('+' + suf if suf else ''))
+    return '&'.join(out)
+
+
+def class_parts(cls):
+    return [part.split('+')[0] for part in cls.split('&')]
+
+
 def gen_mutation(rng, n, cls):
     """mops for one mutation of class cls on netlist n (inspected, not modified)"""
-    return CLASSES[cls][0](rng, n)
+    return lookup_class(cls)[0](rng, n)
